@@ -157,6 +157,14 @@ func (bkt *Bucket) checkHintWithData(chunkID int) (err error) {
 		return
 	}
 	hintDataSize := bkt.hints.loadHintsByChunk(chunkID)
+	if hintDataSize > size {
+		// the hints describe records that never reached the data file (they were dumped while
+		// the records were still buffered and the process was killed): rebuild them from data
+		logger.Errorf("hint beyond data, rebuild: bkt %02x chunk %d, hint datasize %d > data size %d",
+			bkt.ID, chunkID, hintDataSize, size)
+		bkt.hints.ClearChunk(chunkID)
+		hintDataSize = 0
+	}
 	if hintDataSize < size {
 		err = bkt.buildHintFromData(chunkID, hintDataSize)
 	}
